@@ -223,6 +223,9 @@ func run(sc *scenario) (coq string, tags []string, err error) {
 	defer r.cleanup()
 	vr := r.app.ViewRecords()
 	tagset := map[string]bool{"backend:" + sc.Backend: true}
+	if strings.Contains(sc.Backend, "bbolt") {
+		tagset["nullkey-backend"] = true
+	}
 	vname := func(i int) string { return fmt.Sprintf("v%d", i) }
 	var terms []string
 	for _, o := range sc.Ops {
@@ -332,6 +335,17 @@ func run(sc *scenario) (coq string, tags []string, err error) {
 			o.Obs = map[string]any{"code": code, "rows": rows, "err": fmt.Sprint(e)}
 			terms = append(terms, fmt.Sprintf("ORead %d %d %s %d %s %s", o.View, o.WS, r.keyCoq(v, *o.Key), code, kit.List(rterms), kit.List(r.rec.calls)))
 			tagset[fmt.Sprintf("read:%d", code)] = true
+			// finding F2 seen through views, recognised from the observed outcome alone: a stored row
+			// cannot be loaded (its clustering columns came back shorter than the fixed columns) or
+			// comes back with no clustering value at all
+			if code == 9 && strings.Contains(fmt.Sprint(e), "unexpected EOF") {
+				tagset["F2:view-row-ccols-00-unreadable"] = true
+			}
+			for _, row := range rows {
+				if len(row.C) == 0 && row.S == "" {
+					tagset["F2:view-row-ccols-00-unreadable"] = true
+				}
+			}
 			if code == 0 {
 				nset := 0
 				for _, p := range o.Key.C {
@@ -355,10 +369,10 @@ func run(sc *scenario) (coq string, tags []string, err error) {
 				if len(rows) > 1 {
 					tagset["read:multi-row"] = true
 				}
-				// finding F22, recognised from the observed rows alone: a returned row whose leading
-				// columns differ from the requested ones
-				if overread(*o.Key, r, v, rows) {
-					tagset["F22:row-outside-partial-key"] = true
+				// finding F22, recognised from the request and the observed rows alone: the trailing
+				// prefix ends in 0xff and a returned row does not carry the requested leading values
+				if strings.HasSuffix(o.Key.V, "ff") && overread(*o.Key, r, v, rows) {
+					tagset["F22:row-outside-partial-key-ending-ff"] = true
 				}
 			}
 		default:
